@@ -29,8 +29,6 @@ CHECKS = {
 NOT_YET = {
     'C07': 'schedule differential check under construction (DESIGN.md section 4, C07)',
     'C08': 'schedule race check under construction (DESIGN.md section 4, C08)',
-    'C09': 'parallel query check under construction (DESIGN.md section 4, C09)',
-    'C11': 'deserialization mutation check under construction (DESIGN.md section 4, C11)',
     'C12': 'schedule grouping check under construction (DESIGN.md section 4, C12)',
     'C14': 'generated compile-fail programs under construction (DESIGN.md section 4, C14)',
     'C17': 'panic fault enumeration under construction (DESIGN.md section 4, C17)',
